@@ -93,7 +93,18 @@ class RspHandler:
         if crc != crc2:
             raise ValueError(f"Checksum {crc} != {crc2}")
         pkt = pkt[1:-3]
-        return pkt
+        # Restore escaped characters:
+        data = []
+        escaped = False
+        for c in pkt:
+            if escaped:
+                data.append(chr(ord(c) ^ 0x20))
+                escaped = False
+            elif c == "}":
+                escaped = True
+            else:
+                data.append(c)
+        return "".join(data)
 
 
 def decoder():
